@@ -5,7 +5,7 @@ From AGH Require Export Base.Run Base.NetAddr Base.RuleEngine Model.Pipeline Mod
 From AGH Require Model.Rewrites.
 From AGH Require Model.ClientIndex Model.Schedule.
 From AGH Require Export Model.PipelineClients.
-From AGH Require Model.Protection Model.PipelineRefresh Model.Refresh Model.RuleListParser.
+From AGH Require Model.Protection Model.PipelineRefresh Model.Refresh Model.RuleListParser Model.FilterSwitch.
 Local Open Scope N_scope.
 
 (** A legacy rewrite as configured (domain, answer, what netip.ParseAddr made
@@ -32,6 +32,10 @@ Inductive lstep :=
 Inductive qstep :=
   | QOp (o : hop)
   | QPending (n : N)
+  (* round 7: POST /control/filtering/config switching the global filtering
+     flag (Model/FilterSwitch.v): for the queue a handler call that asks for a
+     rebuild; the queries that follow see the flag as the global default *)
+  | QFilt (on : bool)
   | QAsk (ss : list (bytes * N * ssverdict)) (q : request)
          (ups : list (bytes * option resp)) (up : option resp) (obs : outcome).
 
@@ -270,6 +274,9 @@ Fixpoint run_queue (cf : cfg) (sb par : list bytes) (s : pstate) (steps : list q
   match steps with
   | nil => nil
   | QOp o :: rest => run_queue cf sb par (hstep s o) rest
+  | QFilt on :: rest =>
+      let g := FilterSwitch.gstep FilterSwitch.gate_as_written (FilterSwitch.mkG (c_filtering cf) s) (FilterSwitch.GConfig on) in
+      run_queue (FilterSwitch.cfg_filt cf (FilterSwitch.g_on g)) sb par (FilterSwitch.g_q g) rest
   | QPending n :: rest =>
       (empty_outcome, empty_outcome, N.of_nat (length (q_chan s)) =? n) :: run_queue cf sb par s rest
   | QAsk ss q ups up obs :: rest =>
